@@ -40,7 +40,7 @@ def enumerate_cases(tier, seed):
             for d in ((2,) if quick else (2, 3)):
                 if quick and est.startswith("state") and (strat, calib) not in (("filter", "none"), ("fixedpoint", "mle"), ("filter", "dynamic")):
                     continue
-                cases.append(dict(id=f"adaptive/{strat}/{calib}/{lin}/{est}/d{d}", group=f"adaptive/{d}", part="adaptive", strategy=strat, calib=calib, lin=lin, est=est, d=d, m=1, q=3, tier=tier, seed=seed, weight=80))
+                cases.append(dict(id=f"adaptive/{strat}/{calib}/{lin}/{est}/d{d}", group=f"adaptive/{d}/{strat}/{calib}/{est}", part="adaptive", strategy=strat, calib=calib, lin=lin, est=est, d=d, m=1, q=3, tier=tier, seed=seed, weight=80))
     return cases
 
 
